@@ -631,6 +631,113 @@ def check_cache_reads_own_key(ck, cm: CacheModel, R):
               "the value cached for another call (e.g. one that wrote a different result under the same override key)" % ([A.norm(k) for k in foreign] or ["no cache slot"])[0],
               fa.where(r))
     ck.need(n >= 1, "MemoryCache.read_result returns no value")
+    # ... and, the cache being keyed by CALL, an entry answers only for the memento it holds: a memento of the same call
+    # obtained before the call was memoized again has another content key, and its bytes are still in the store
+    for r in fa.returns():
+        for (v_, at_) in (value_sources(fa, r) if r.value is not None else []):
+            try:
+                txt = fa.xnorm(v_, at_)
+            except AnalysisError:
+                continue
+            if not (txt.endswith(".value") and ("self." + cm.map) in txt):
+                continue
+            ok = _reached_only_holding(ck, cm, fa, at_, mem, "")
+            ck.ob(R, fa.key(r, "serves-asked-memento"), ok,
+                  "an entry's value is served only when the entry's memento has the content key of the memento asked about" if ok else
+                  "read_result returns the value of the call's cache entry without having established that the entry's memento is the one asked "
+                  "about (entry.memento.content_key == %s.content_key): the cache is keyed by call, so a memento obtained before the call was "
+                  "memoized again is answered with the LATER result instead of the bytes it names" % mem, fa.where(r))
+
+
+def _holds_same_memento(ck, cm, e, positive, mem, depth=0) -> bool:
+    """Does `e` evaluating to `positive` establish that the cache entry of `mem`'s own call holds a memento with the content
+    key of `mem`?  `E.memento.content_key == mem.content_key` with E read from the resident map under mem's own cache key
+    (either operand order, `!=` taken false, a conjunct of `and`, behind `not`), or a call of a method of the cache whose
+    single return value establishes it for the argument it is given (`self.holds(mem)`, whatever it is called)."""
+    import copy
+    if isinstance(e, ast.UnaryOp) and isinstance(e.op, ast.Not):
+        return _holds_same_memento(ck, cm, e.operand, not positive, mem, depth)
+    if isinstance(e, ast.BoolOp):
+        conj = (isinstance(e.op, ast.And) and positive) or (isinstance(e.op, ast.Or) and not positive)
+        parts = [_holds_same_memento(ck, cm, v, positive, mem, depth) for v in e.values]
+        return any(parts) if conj else all(parts)
+    if isinstance(e, ast.Compare) and len(e.ops) == 1 and isinstance(e.ops[0], (ast.Eq, ast.NotEq)):
+        if isinstance(e.ops[0], ast.NotEq) == positive:
+            return False
+        own = _cache_key_canon(ck, cm, ast.parse("self._cache_key_for_memento(%s)" % mem, mode="eval").body)
+        for (a, b) in ((e.left, e.comparators[0]), (e.comparators[0], e.left)):
+            if A.norm(b) != mem + ".content_key":
+                continue
+            if not (isinstance(a, ast.Attribute) and a.attr == "content_key" and isinstance(a.value, ast.Attribute) and a.value.attr == "memento"):
+                continue
+            x = a.value.value
+            key = None
+            if isinstance(x, ast.Subscript) and self_attr(x.value, cm.map):
+                key = x.slice
+            elif isinstance(x, ast.Call) and A.call_attr(x) == "get" and self_attr(A.call_recv(x), cm.map) and x.args:
+                key = x.args[0]
+            if key is not None and _cache_key_canon(ck, cm, key) == own:
+                return True
+        return False
+    if isinstance(e, ast.Call) and positive and depth < 2 and isinstance(e.func, ast.Attribute) and isinstance(e.func.value, ast.Name) \
+            and e.func.value.id == "self" and e.func.attr in cm.cls.methods:
+        m = cm.cls.methods[e.func.attr]
+        rets = [s_ for s_ in A.all_stmts(m.node) if isinstance(s_, ast.Return)]
+        if len(rets) != 1 or rets[0].value is None:
+            return False
+        bound = _bind(e, m.params)
+        prm = [p_ for p_ in m.params if p_ != "self"]
+        hit = [p_ for p_ in prm if p_ in bound and A.norm(bound[p_]) == mem]
+        if len(hit) != 1:
+            return False
+        try:
+            body = FA(ck, m).expand(rets[0].value)
+        except AnalysisError:
+            return False
+        return _holds_same_memento(ck, cm, copy.deepcopy(body), True, hit[0], depth + 1)
+    return False
+
+
+def _reached_only_holding(ck, cm, fa: FA, target, mem, layer_prefix) -> bool:
+    """every way to `target` takes a branch edge that establishes that the cache holds `mem` for its call (the literals of
+    FA.conditions: nesting, guard clauses, negations, temporaries and conjunctions are normalised away); `layer_prefix`:
+    how the cache is named in this function ('' inside the cache, 'self._memory_cache.' in the backend)"""
+    try:
+        conds = fa.conditions(target)
+    except (AnalysisError, RecursionError):
+        return False
+    if not conds:
+        return False
+    memo = {}
+
+    def lit_ok(t, p):
+        if (t, p) not in memo:
+            txt = t.replace(layer_prefix, "self.") if layer_prefix else t
+            try:
+                memo[(t, p)] = _holds_same_memento(ck, cm, ast.parse(txt, mode="eval").body, p, mem)
+            except SyntaxError:
+                memo[(t, p)] = False
+        return memo[(t, p)]
+    return all(any(lit_ok(t, p) for (t, p) in c) for c in conds)
+
+
+def check_cache_fill_only_for_held_memento(ck, cm: CacheModel, R):
+    """read_result of the backend is handed a memento by its caller -- possibly one obtained before the call was forgotten
+    or memoized again (data objects are never removed, so its result still loads).  Putting that into the cache would bring
+    a forgotten call back (is_memoized / get_memento answer from the cache) or replace the current memento by a superseded
+    one: the loaded result is put into the cache only where the cache has been found to hold that very memento."""
+    rr = FA(ck, BACKEND_BASE + ".read_result")
+    ck.need(len(rr.fi.params) >= 2, "StorageBackendBase.read_result(memento) signature changed")
+    mem = rr.fi.params[1]
+    _n, sites = _layer_application_nodes(ck, rr, "put", "_memory_cache", _no_cache)
+    calls = list({id(c): c for c in [c for (c, _a, _k) in sites] + _field_calls(rr, "_memory_cache", "put")}.values())
+    for c in calls:
+        ok = _reached_only_holding(ck, cm, rr, c, mem, "self._memory_cache.")
+        ck.ob(R, rr.key(None, "fill-only-held-memento"), ok,
+              "the loaded result is cached only where the cache holds that very memento for the call" if ok else
+              "read_result puts the result it loaded into the cache under whatever memento it was handed, without having established that the "
+              "cache currently holds that memento for the call: reading through a memento obtained before the call was forgotten (or memoized "
+              "again) makes the forgotten call memoized again / brings the superseded memento and value back", rr.where(c))
 
 
 def _cache_key_canon(ck, cm, key_expr) -> str:
@@ -3115,6 +3222,7 @@ def check(ck):
     ck.run(check_delete_enumerates_versions, ck, "C05.R2")
     ck.run(check_metadata_single_form, ck, "C05.R4")
     ck.run(check_cache_reads_own_key, ck, cm, "C05.R4")
+    ck.run(check_cache_fill_only_for_held_memento, ck, cm, "C05.R4")
     ck.run(check_queries_effect_free, ck, "C05.R3")
     ck.run(check_cache_coherence, ck, cm)
     ck.run(check_side_tables, ck, cm, "C05.R9")
